@@ -14,6 +14,7 @@ import (
 type propFunc func(r *Run, verifDir string)
 
 var props = map[string]propFunc{
+	"C01": runC01,
 	"C05": runC05,
 	"C06": runC06,
 	"C17": runC17,
